@@ -38,6 +38,16 @@ def generate(rng, tier):
     for i in range(ng):
         nb = rng.choice([2, 2, 3, 8, 31, 32])
         groups.append((rng.randint(2, 255), rand_prime(rng, nb, top_bit=(nb == 32 and rng.random() < 0.7))))
+    # NEIGHBOURS of the built-in group: the built-in prime with ONE byte changed (most significant, least significant, one in the middle —
+    # the client needs no primality, it computes with what it is told), with the built-in generator and with others; and the built-in
+    # prime with every kind of generator.  A shortcut that recognises "the default group" has to look at all 33 bytes.
+    for pos in (31, 30, 0, 1, rng.randrange(2, 30)):
+        for _ in range(2):
+            nb_ = bytearray(N_LE); nb_[pos] ^= rng.randint(1, 255)
+            n2 = pyref.le(bytes(nb_))
+            if n2 > 1:
+                groups.append((7, n2)); groups.append((rng.choice([2, 3, 5, 6, 8, 128, 255]), n2))
+    groups += [(g, N) for g in (6, 8, 1, 128, 254)]
     # one-byte primes, in particular with the generator byte ABOVE the prime (g is hashed as the announced byte, not as g mod N'),
     # equal to it plus one, and just below it
     for p1 in (3, 5, 7, 11, 13, 127, 131, 193, 251):
